@@ -16,6 +16,9 @@ from mutants import M
 REPO = os.environ.get('VERIF_REPO', '/repo')
 
 
+ALL_PROPS = [f'C{i:02d}' for i in range(1, 21)]
+
+
 def copy_sources(dst):
     src = os.path.join(REPO, 'TidalPy')
     for dp, dn, fn in os.walk(src):
@@ -69,6 +72,15 @@ def run_check(mu, tier, tmp):
             return mu, 'MISSED', out.strip().splitlines()[-1][:160] if out.strip() else '', dt
         else:
             if r.returncode == 0:
+                # a behaviour-preserving change must leave every *other* property's check silent as well (cross-property silence)
+                if mu.get('cross'):
+                    for other in ALL_PROPS:
+                        if other == mu['prop']: continue
+                        r2 = subprocess.run([os.path.join(VERIF, 'check'), other, '--tier', tier, '--repo', tmp], capture_output=True, text=True, env=env, timeout=1800)
+                        if r2.returncode != 0:
+                            v2 = [l for l in r2.stdout.splitlines() if (l.startswith('  ') and 'rule=' in l) or 'ANALYSIS-ERROR' in l]
+                            return mu, 'FALSE-ALARM' if r2.returncode == 1 else 'ANALYSIS-ERROR', f'[{other}] ' + (v2[0].strip()[:180] if v2 else r2.stdout[-160:]), time.time() - t
+                    return mu, 'OK', 'silent (all 20 checks)', time.time() - t
                 return mu, 'OK', 'silent', dt
             if r.returncode == 2:
                 return mu, 'ANALYSIS-ERROR', out.strip().splitlines()[-1][:200], dt
@@ -82,6 +94,7 @@ def main():
     ap.add_argument('--tier', default='quick')
     ap.add_argument('--json', default=os.path.join(HERE, 'last_result.json'))
     ap.add_argument('--no-global', action='store_true')
+    ap.add_argument('--cross', action='store_true', help='run all 20 checks on every refactor twin (cross-property silence)')
     a = ap.parse_args()
     # the confirmed sub-agent changes kept under /verif/seeded are mutants too: each must be reported by its property's check
     seeded = os.path.join(VERIF, 'seeded')
@@ -99,6 +112,9 @@ def main():
                     M.append(dict(id=f'{"indep" if expect == "fire" else "refac"}-{sid}-{fn[:-5]}', prop=sid[:3], file='', old='', new='', count='first', expect=expect, rule=None,
                                   patch=os.path.join(base, sid, fn)))
     todo = [mu for mu in M if not a.only or a.only in mu['id'] or a.only == mu['prop']]
+    if a.cross:
+        for mu in todo:
+            if mu['expect'] == 'silent' and mu.get('patch'): mu['cross'] = True
     t0 = time.time()
     with ThreadPoolExecutor(a.jobs) as ex:
         res = list(ex.map(lambda mu: run_one(mu, a.tier), todo))
